@@ -35,7 +35,10 @@ type ExpStep struct {
 	Outputs []ExpOutput `json:"outputs"`
 }
 
+// (ExpCase.Again: when the tool passes the session, run the same Session
+// value once more against a stream of noise.)
 type ExpCase struct {
+	Again bool      `json:"again,omitempty"`
 	Steps []ExpStep `json:"steps"`
 }
 
@@ -90,7 +93,7 @@ var padMarker = regexp.MustCompile(`@@PAD:(\d+)@@`)
 // blocks `cat` - and the tool - for ever.  That is a limitation of the tool
 // which C19 does not speak about (a session that hangs has not passed).
 func (c ExpCase) expanded() ExpCase {
-	out := ExpCase{}
+	out := ExpCase{Again: c.Again}
 	budget := 40000
 	for _, st := range c.Steps {
 		ns := ExpStep{Outputs: st.Outputs}
@@ -192,6 +195,7 @@ func genExp(t *rapid.T) ExpCase {
 			}
 		}
 	}
+	c.Again = rapid.Bool().Draw(t, "again")
 	// a quiet step can only be satisfied by what earlier steps left in
 	// the stream: often provide exactly that, at the end of the previous
 	// step's lines
@@ -340,6 +344,46 @@ func checkExp(c ExpCase) (v ev.Verdict) {
 	if err == nil && !pass {
 		v.Failf("the tool passed the session, but %s", why)
 		return
+	}
+	if err == nil && c.Again {
+		// The same Session value run a second time, now against a stream
+		// that holds nothing any output expects: whatever the first run left in
+		// the session, the second run may pass only if its own stream
+		// satisfies it.
+		again := ExpCase{}
+		for i := range s.IOs {
+			s.IOs[i].Inputs = []interface{}{"not json", `{"k":"nothing expects this"}`}
+			again.Steps = append(again.Steps, ExpStep{Outputs: c.Steps[i].Outputs, Lines: []string{"not json", `{"k":"nothing expects this"}`}})
+		}
+		ctx2, cancel2 := context.WithTimeout(context.Background(), 10*time.Second)
+		defer cancel2()
+		var err2 error
+		ran2 := make(chan struct{})
+		go func() {
+			defer close(ran2)
+			p = trapPanic(func() { err2 = s.Run(ctx2, "", "cat") })
+		}()
+		select {
+		case <-ran2:
+		case <-time.After(30 * time.Second):
+			exec.Command("pkill", "-P", strconv.Itoa(os.Getpid()), "cat").Run()
+			<-ran2
+			reap()
+			v.Skip, v.SkipReason = true, "tool-waits-for-blocked-subprocess"
+			return
+		}
+		if p != "" {
+			v.Failf("the second Session.Run panicked: %s", p)
+			return
+		}
+		if err2 != nil {
+			reap()
+		}
+		v.Class("run-again")
+		if pass2, why2, _ := modelVerdict(again); err2 == nil && !pass2 {
+			v.Failf("the same session run a second time against a stream of noise passed, but %s", why2)
+			return
+		}
 	}
 	multi := false
 	for _, st := range c.Steps {
